@@ -227,6 +227,44 @@ def emit_task_shape(repo: Path, status: dict, flags: dict) -> None:
         flags["gen_task_methods_shape"] = False; status["gen_task_methods_shape"] = f"ERROR: {e}"
 
 
+EXPECT_ENCODER = {
+    ("LabelEncoder", "__init__"): ["self.__unique_labels__ = None", "self.__label_to_index__ = {}"],
+    ("LabelEncoder", "__set_y__"): ["if type(y) not in (list, tuple, np.ndarray): y = (y,)", "return y"],
+    ("LabelEncoder", "fit_transform"): ["y = self.__set_y__(y)", "self.fit(y)", "return self.transform(y)"],
+}
+
+
+def emit_encoder_shape(repo: Path, status: dict, flags: dict) -> None:
+    """what T-core does not translate of LabelEncoder: the constructor leaves both fields unset PER INSTANCE (no class-level table), __set_y__ leaves a list a list;
+    the two fields are assigned in __init__ and fit only, and PermutationVariable's encoder / label table in its __init__ only (fit, transform, inverse_transform, the
+    label table and decode are REGENERATED: gen/GenLabels.v, gen/GenVars.v)"""
+    try:
+        tree = ast.parse((repo / "pyvolutionary" / "models.py").read_text())
+        changed = []
+        for (cls, name), want in EXPECT_ENCODER.items():
+            fn = method(tree, cls, name)
+            if fn is None or body_text(fn) != want: changed.append(f"{cls}.{name}")
+        for c in tree.body:
+            if isinstance(c, ast.ClassDef) and c.name == "LabelEncoder":
+                extra = [ast.unparse(st)[:40] for st in c.body if not isinstance(st, ast.FunctionDef) and not (isinstance(st, ast.Expr) and isinstance(st.value, ast.Constant))]
+                if extra: changed.append("LabelEncoder class body: " + "; ".join(extra))
+        stores = {}
+        for c in tree.body:
+            if not isinstance(c, ast.ClassDef): continue
+            for m in c.body:
+                if not isinstance(m, ast.FunctionDef): continue
+                for n in ast.walk(m):
+                    if isinstance(n, ast.Attribute) and isinstance(n.ctx, (ast.Store, ast.Del)) and n.attr in ("__unique_labels__", "__label_to_index__", "_label_encoder", "_labels"):
+                        stores.setdefault(n.attr, set()).add(f"{c.name}.{m.name}")
+        want_stores = {"__unique_labels__": {"LabelEncoder.__init__", "LabelEncoder.fit"}, "__label_to_index__": {"LabelEncoder.__init__", "LabelEncoder.fit"},
+                       "_label_encoder": {"PermutationVariable.__init__"}, "_labels": {"PermutationVariable.__init__"}}
+        if stores != want_stores: changed.append(f"assignments to the encoder fields: {sorted((k, sorted(v)) for k, v in stores.items())}")
+        flags["gen_label_encoder_shape"] = not changed
+        status["gen_label_encoder_shape"] = "regenerated" if not changed else "UNSUPPORTED: changed: " + ", ".join(changed)
+    except Exception as e:
+        flags["gen_label_encoder_shape"] = False; status["gen_label_encoder_shape"] = f"ERROR: {e}"
+
+
 def class_text(tree, name):
     for c in tree.body:
         if isinstance(c, ast.ClassDef) and c.name == name:
@@ -256,6 +294,7 @@ def emit(repo: Path, status: dict) -> None:
     flags = {}
     emit_config_shape(repo, status, flags)
     emit_task_shape(repo, status, flags)
+    emit_encoder_shape(repo, status, flags)
     emit_hash_order(repo, status, flags)
     emit_bounds_fresh(repo, status, flags)
     emit_multi(repo, status, flags)
